@@ -1,10 +1,11 @@
 """C52 - format upgrades and reconfigurations preserve history and trees."""
 
+import errno
 import os
 
 from hypothesis import strategies as st
 
-from vf.api import Kind, check, ok, trivial
+from vf.api import Kind, check, ok, rejected, trivial
 from vf.lib import bz, history, treemodel as tm
 
 PROPERTY = "C52"
@@ -17,17 +18,23 @@ TECHNIQUE = ("Hypothesis-generated histories with tags and a working tree with "
              "pending changes")
 RULE = ("history_spec (merges, symlinks, exec bits, metadata, tags) built through "
         "a real working tree in one of 8 source formats, then generated pending "
-        "edits and an optional pending merge; action = upgrade to a generated "
-        "compatible target format, or 1-4 reconfiguration steps (branch, tree, "
-        "checkout, standalone, use-shared, stacked-on, unstacked). Non-trivial: "
-        "the history has a merge and a tag and the tree has a pending rename or "
-        "pending merge; or a walk of >= 2 effective transitions. Distinct by case "
-        "hash.")
+        "edits and an optional pending merge; kind upgrade: upgrade() to a "
+        "generated compatible target format (or the default, or the same "
+        "format) of a standalone tree, a tree-less branch, a shared repository "
+        "with its dependent branches or a lightweight checkout, with the "
+        "clean_up and dry_run options; kind reconfigure: 1-6 reconfiguration "
+        "steps (branch, tree, checkout, lightweight checkout, standalone, "
+        "use-shared, stacked-on, unstacked, with-trees, no-trees; bind "
+        "location implicit or explicit; parent in step or behind), one third "
+        "starting with a directed pair of transitions. Non-trivial: the history "
+        "has a merge and a tag and the tree has a pending rename or pending "
+        "merge; or a walk of >= 2 effective transitions. Distinct by case hash.")
 ASSUMPTIONS = [
     "StrictTestament3 (root entry with last-changed revision) is compared only "
     "when the root model (rich root or not) is unchanged by the action",
     "a reconfiguration that destroys the working tree is only compared at branch "
-    "level afterwards (files stay on disk; tree state no longer exists)",
+    "level afterwards; when a later step creates a tree again its files must be "
+    "the ones that were there when the (clean) tree was destroyed",
 ]
 LEVEL_TEXT = ("Sampled exploration with an exact before/after oracle: nothing the "
               "property names (tip, revno, tags, every revision's testaments, file "
@@ -36,8 +43,9 @@ LEVEL_TEXT = ("Sampled exploration with an exact before/after oracle: nothing th
               "nothing.")
 LEVEL_NOTE = ("Local transports; histories bounded to 6 revisions; formats "
               "pack-0.92, 1.9, 1.9-rich-root, rich-root-pack, 1.14, "
-              "1.14-rich-root, knit, 2a; lightweight checkouts are covered only as "
-              "a target of to_lightweight_checkout from a checkout.")
+              "1.14-rich-root, knit, 2a; upgrade() is driven on standalone "
+              "trees, tree-less branches, shared repositories (with dependents) "
+              "and lightweight checkouts.")
 REGISTERED = True
 NONTRIVIAL_FLOOR = {"quick": 20, "thorough": 200}
 
@@ -62,7 +70,23 @@ def snap_fs(root):
             if not p.split("/")[0].startswith("backup.bzr")}
 
 
-def observe(path, v3):
+def has_backup(root):
+    return any(n.startswith("backup.bzr") for n in os.listdir(root))
+
+
+def format_markers(root):
+    """Bytes of the format files of a control directory."""
+    out = {}
+    for rel in ("branch-format", "branch/format", "repository/format",
+                "checkout/format"):
+        p = os.path.join(root, ".bzr", rel)
+        if os.path.isfile(p):
+            with open(p, "rb") as f:
+                out[rel] = f.read().decode("latin-1")
+    return out
+
+
+def observe(path, v3, tree_path=None):
     from breezy import branch as _branch, errors, workingtree
     from breezy.bzr import testament as T
     b = _branch.Branch.open(path)
@@ -83,8 +107,9 @@ def observe(path, v3):
         out["tip"] = [revno, tip.decode()]
         out["tags"] = {k: v.decode() for k, v in
                        b.tags.get_tag_dict().items()} if b.supports_tags() else {}
+    tree_path = tree_path or path
     try:
-        wt = workingtree.WorkingTree.open(path)
+        wt = workingtree.WorkingTree.open(tree_path)
     except errors.NoWorkingTree:
         out["tree"] = None
     else:
@@ -99,7 +124,7 @@ def observe(path, v3):
                 "conflicts": sorted(
                     (c.typestring, c.path, getattr(c, "conflict_path", None))
                     for c in wt.conflicts())}
-    out["fs"] = snap_fs(path)
+    out["fs"] = snap_fs(tree_path)
     return out
 
 
@@ -108,30 +133,68 @@ def diff(a, b):
             if a.get(k) != b.get(k)}
 
 
-def run(case, env):
-    from breezy import branch as _branch, controldir, errors
-    from breezy import reconfigure as _rc, upgrade as _up
+def dd(a, b):
+    return diff(a, b) if isinstance(a, dict) and isinstance(b, dict) else [a, b]
+
+
+class World:
+    pass
+
+
+def build_world(case, env, layout="tree", parent_behind=False):
+    """Source history + tags, a parent branch, the tree with its pending
+    state.  layout: tree | branch (no working tree) | checkout (the pending
+    state lives in a lightweight checkout) | shared-top."""
+    from vf.lib import graphmodel as gm
+    w = World()
     src = case["source"]
-    d = env.newdir()
-    top = d + "/top"
+    w.d = d = env.newdir()
+    w.top = top = d + "/top"
     os.makedirs(top)
     if case["shared"]:
+        # the branch uses the shared repository above it
         bz.init_repo(top, src, shared=True)
-        # the tree itself gets its own repository: standalone inside a shared one
-    path = top + "/t"
+    w.path = path = top + "/t"
     spec = case["spec"]
     wt, models, idmap = _build(spec, path, src)
-    tip = spec["revs"][-1]["id"]
+    w.tip = tip = spec["revs"][-1]["id"]
+    g = history.graph_of(spec, ghosts=False)
     # a parent branch (gives checkout / stacking something to refer to)
-    parent = wt.branch.controldir.sprout(d + "/parent").open_branch()
-    wt.branch.set_parent(parent.base)
+    lh = gm.lefthand(g, tip)
+    if parent_behind and len(lh) >= 2:
+        w.parent = wt.branch.controldir.sprout(
+            d + "/parent", revision_id=bz.enc(lh[-2])).open_branch()
+        w.parent_in_step = False
+    else:
+        w.parent = wt.branch.controldir.sprout(d + "/parent").open_branch()
+        w.parent_in_step = True
+    wt.branch.set_parent(w.parent.base)
+    w.tree_path = path
+    if layout == "branch":
+        wt.branch.controldir.destroy_workingtree()
+        return w
+    if layout == "checkout":
+        # a lightweight checkout whose control directory and tree are in the
+        # source format too (create_checkout would make them in the default
+        # format, and a target older than that is not an upgrade of the tree:
+        # Convert.convert then loops for ever - see the C52 notes)
+        from breezy import transport as _t
+        w.tree_path = d + "/co"
+        t = _t.get_transport(w.tree_path)
+        t.ensure_base()
+        cd = bz.fmt(src).initialize_on_transport(t)
+        cd.set_branch_reference(wt.branch)
+        wt = cd.create_workingtree()
+    if layout == "shared-top":
+        # a second dependent branch of the shared repository
+        wt.branch.controldir.sprout(top + "/b2")
+    if case.get("clean"):
+        return w
     # pending changes (never committed)
     m = tm.clone(models[tip])
     with wt.lock_write():
         bz.apply_ops_wt(wt, m, case["pending"])
         if case["pending_merge"]:
-            g = history.graph_of(spec, ghosts=False)
-            from vf.lib import graphmodel as gm
             anc = gm.ancestry(g, tip)
             others = [r["id"] for r in spec["revs"] if r["id"] not in anc]
             if others:
@@ -145,94 +208,8 @@ def run(case, env):
             if files:
                 cl.append(_c.ContentsConflict(files[-1] + ".moved"))
             wt.set_conflicts(cl)
-    bz.age_files(path)
-    action = case["action"]
-    rich = src in RICH
-    labels = []
-    if action["kind"] == "upgrade":
-        tgt = TARGETS[src][action["target"] % len(TARGETS[src])]
-        same_root = (tgt in RICH or tgt == "development-colo") == rich
-        before = observe(path, v3=same_root)
-        try:
-            _up.upgrade(path, bz.fmt(tgt))
-        except errors.BzrError as e:
-            after = observe(path, v3=same_root)
-            check(after == before, "C52/refused-upgrade-changed-something",
-                  [src, tgt, type(e).__name__, diff(before, after)])
-            return ok("upgrade-refused:%s" % type(e).__name__)
-        after = observe(path, v3=same_root)
-        for k in ("tip", "tags", "testaments", "tree", "fs"):
-            check(after[k] == before[k], "C52/upgrade-changed-%s" % k,
-                  [src, tgt, diff(before[k], after[k])
-                   if isinstance(before[k], dict) and isinstance(after[k], dict)
-                   else [before[k], after[k]]])
-        check(os.path.isdir(os.path.join(path, "backup.bzr.~1~")) or
-              os.path.isdir(os.path.join(path, "backup.bzr")),
-              "C52/no-backup-after-upgrade", [src, tgt, os.listdir(path)])
-        b = _branch.Branch.open(path)
-        res = b.repository.check([b.last_revision()])
-        labels.append("upgrade:%s->%s" % (src, tgt))
-    else:
-        before = observe(path, v3=True)
-        effective = 0
-        for step in action["steps"]:
-            cd = controldir.ControlDir.open(path)
-            pre = observe(path, v3=True)
-            try:
-                if step == "branch":
-                    _rc.Reconfigure.to_branch(cd).apply(force=False)
-                elif step == "tree":
-                    _rc.Reconfigure.to_tree(cd).apply(force=False)
-                elif step == "checkout":
-                    _rc.Reconfigure.to_checkout(cd).apply(force=False)
-                elif step == "lightweight":
-                    _rc.Reconfigure.to_lightweight_checkout(cd).apply(
-                        force=False)
-                elif step == "standalone":
-                    _rc.Reconfigure.to_standalone(cd).apply(force=False)
-                elif step == "use-shared":
-                    _rc.Reconfigure.to_use_shared(cd).apply(force=False)
-                elif step == "stacked":
-                    _rc.ReconfigureStackedOn().apply(cd, parent.base)
-                elif step == "unstacked":
-                    _rc.ReconfigureUnstacked().apply(cd)
-                effective += 1
-                labels.append(step)
-            except (_rc.BzrDirError, errors.UncommittedChanges,
-                    _branch.UnstackableBranchFormat,
-                    errors.UnstackableRepositoryFormat, errors.NotStacked,
-                    errors.NoRepositoryPresent, errors.UpgradeRequired,
-                    errors.UnstackableLocationError,
-                    errors.NotBranchError) as e:
-                # NotBranchError: use-shared without a shared repository above
-                if isinstance(e, errors.NotBranchError):
-                    check(step == "use-shared" and not case["shared"],
-                          "C52/exc:NotBranchError-from-reconfigure",
-                          [src, step, str(e)[:200]])
-                post = observe(path, v3=True)
-                check(post == pre, "C52/refused-reconfigure-changed-something",
-                      [src, step, type(e).__name__, diff(pre, post)])
-                labels.append("%s-refused:%s" % (step, type(e).__name__))
-                continue
-            post = observe(path, v3=True)
-            # (turning a tree into a plain branch removes the working files by
-            # design - only allowed without uncommitted changes - and turning
-            # it back re-creates them from the tip)
-            keys = ["tip", "tags", "testaments"]
-            if pre["tree"] is not None and post["tree"] is not None:
-                keys.append("fs")
-            for k in keys:
-                check(post[k] == pre[k], "C52/reconfigure-%s-changed-%s" % (
-                    step, k), [src, action["steps"],
-                               diff(pre[k], post[k])
-                               if isinstance(pre[k], dict) else [pre[k], post[k]]])
-            if pre["tree"] is not None and post["tree"] is not None:
-                check(post["tree"] == pre["tree"],
-                      "C52/reconfigure-%s-changed-pending-changes" % step,
-                      [src, action["steps"], pre["tree"], post["tree"]])
-        if effective < 1:
-            return trivial()
-    return ok("+".join(labels)[:120])
+    bz.age_files(w.tree_path)
+    return w
 
 
 def _build(spec, path, fmt):
@@ -243,8 +220,248 @@ def _build(spec, path, fmt):
     return wt, models, idmap
 
 
+# ---------------------------------------------------------------- upgrade
+
+def run_upgrade(case, env):
+    from breezy import branch as _branch, controldir, errors
+    from breezy import upgrade as _up
+    src = case["source"]
+    action = case["action"]
+    layout = action.get("layout", "tree")
+    if layout == "shared-top" and not case["shared"]:
+        layout = "tree"
+    w = build_world(case, env, layout)
+    path = w.path
+    rich = src in RICH
+    opts = action.get("opts") or {}
+    dry_run, clean_up = bool(opts.get("dry_run")), bool(opts.get("clean_up"))
+    if opts.get("same"):
+        tgt, fmt_arg, tgt_rich = src, bz.fmt(src), rich
+    elif opts.get("default"):
+        tgt, fmt_arg = "default", None
+        # (upgrade() picks default-rich-root or default by the source)
+        tgt_rich = controldir.format_registry.make_controldir(
+            "default-rich-root" if rich else "default"
+        ).repository_format.rich_root_data
+    else:
+        tgt = TARGETS[src][action["target"] % len(TARGETS[src])]
+        fmt_arg = bz.fmt(tgt)
+        tgt_rich = tgt in RICH or tgt == "development-colo"
+    same_root = tgt_rich == rich
+    url = {"tree": path, "branch": path, "checkout": w.tree_path,
+           "shared-top": w.top}[layout]
+    roots = sorted({url, w.tree_path, path})     # control dirs that may change
+    ctx = [src, tgt, layout, sorted(k for k, v in opts.items() if v)]
+    before = observe(path, v3=same_root, tree_path=w.tree_path)
+    marks = {r: format_markers(r) for r in roots}
+    try:
+        excs = _up.upgrade(url, fmt_arg, clean_up=clean_up, dry_run=dry_run)
+    except errors.BzrError as e:
+        excs = [e]
+    except OSError as e:
+        # (the transport's OSError carries the errno in its text only)
+        if layout != "shared-top" or not (
+                e.errno == errno.ELOOP or
+                "os error %d)" % errno.ELOOP in str(e)):
+            raise
+        # open finding: looking for the dependent branches of a shared
+        # repository walks into the working trees below it and trips over a
+        # symbolic link that points at itself
+        after = observe(path, v3=same_root, tree_path=w.tree_path)
+        check(after == before, "C52/refused-upgrade-changed-something",
+              [ctx, "ELOOP", diff(before, after)])
+        check(False, "C52/upgrade-of-shared-repository-crashes-on-a-symlink-"
+              "loop-in-a-working-tree-below-it", [ctx, str(e)[:200]])
+    if excs:
+        # upgrade() reports the errors of the conversions it attempted: a
+        # refusal (or a failed conversion) must leave everything as it was
+        for e in excs:
+            if not isinstance(e, errors.BzrError):
+                raise e
+        after = observe(path, v3=same_root, tree_path=w.tree_path)
+        check(after == before, "C52/refused-upgrade-changed-something",
+              [ctx, [type(e).__name__ for e in excs], diff(before, after)])
+        return rejected("upgrade-error:%s" % "+".join(
+            sorted({type(e).__name__ for e in excs})))
+    after = observe(path, v3=same_root, tree_path=w.tree_path)
+    for k in ("tip", "tags", "testaments", "tree", "fs"):
+        check(after[k] == before[k], "C52/upgrade-changed-%s" % k,
+              [ctx, dd(before[k], after[k])])
+    if dry_run:
+        check({r: format_markers(r) for r in roots} == marks,
+              "C52/dry-run-upgrade-converted-something",
+              [ctx, marks, {r: format_markers(r) for r in roots}])
+        check(not any(has_backup(r) for r in roots),
+              "C52/dry-run-upgrade-made-a-backup", ctx)
+        return ok("upgrade-dry-run:%s" % layout)
+    converted = {r: format_markers(r) != marks[r] for r in roots}
+    if not any(converted.values()):
+        # nothing needed converting (same format, or default == source)
+        return ok("upgrade-up-to-date") if opts.get("same") else trivial()
+    # (a lightweight checkout's branch is converted in place, in its own
+    # control directory, by the conversion of the checkout; the backup is
+    # made where upgrade() was pointed at, and in the dependents it found)
+    for r in roots:
+        if converted[r] and (r == url or layout == "shared-top"):
+            check(has_backup(r) == (not clean_up),
+                  "C52/no-backup-after-upgrade" if not clean_up else
+                  "C52/backup-left-after-clean-up", [ctx, r, os.listdir(r)])
+    b = _branch.Branch.open(path)
+    b.repository.check([b.last_revision()])
+    return ok("upgrade:%s->%s%s%s" % (
+        src, tgt, "" if layout == "tree" else ":" + layout,
+        ":clean-up" if clean_up else ""))
+
+
+# ---------------------------------------------------------------- reconfigure
+
+STEPS = ["branch", "tree", "checkout", "lightweight", "standalone",
+         "use-shared", "stacked", "unstacked", "with-trees", "no-trees",
+         "checkout-to", "lightweight-to"]
+DIRECTED = [
+    ["standalone", "use-shared"], ["use-shared", "standalone"],
+    ["branch", "tree"], ["branch", "checkout"], ["branch", "lightweight"],
+    ["lightweight", "tree"], ["lightweight", "branch"],
+    ["lightweight", "checkout"], ["lightweight-to", "standalone", "tree"],
+    ["checkout", "lightweight", "checkout"], ["checkout-to", "branch", "tree"],
+    ["stacked", "standalone", "unstacked"], ["stacked", "lightweight"],
+    ["no-trees", "with-trees"], ["standalone", "lightweight", "use-shared"],
+]
+
+
+def run_reconfigure(case, env):
+    from breezy import branch as _branch, controldir, errors
+    from breezy import reconfigure as _rc
+    src = case["source"]
+    action = case["action"]
+    w = build_world(case, env, "tree",
+                    parent_behind=bool(action.get("parent_behind")))
+    path, parent = w.path, w.parent
+    labels = []
+    effective = 0
+    fs_at_destroy = None
+    deferred = []
+    for step in action["steps"]:
+        cd = controldir.ControlDir.open(path)
+        pre = observe(path, v3=True)
+        try:
+            if step == "branch":
+                _rc.Reconfigure.to_branch(cd).apply(force=False)
+            elif step == "tree":
+                _rc.Reconfigure.to_tree(cd).apply(force=False)
+            elif step == "checkout":
+                _rc.Reconfigure.to_checkout(cd).apply(force=False)
+            elif step == "checkout-to":
+                _rc.Reconfigure.to_checkout(cd, parent.base).apply(force=False)
+            elif step == "lightweight":
+                _rc.Reconfigure.to_lightweight_checkout(cd).apply(
+                    force=False)
+            elif step == "lightweight-to":
+                _rc.Reconfigure.to_lightweight_checkout(
+                    cd, parent.base).apply(force=False)
+            elif step == "standalone":
+                _rc.Reconfigure.to_standalone(cd).apply(force=False)
+            elif step == "use-shared":
+                _rc.Reconfigure.to_use_shared(cd).apply(force=False)
+            elif step == "stacked":
+                _rc.ReconfigureStackedOn().apply(cd, parent.base)
+            elif step == "unstacked":
+                _rc.ReconfigureUnstacked().apply(cd)
+            elif step in ("with-trees", "no-trees"):
+                try:
+                    cd.find_repository()
+                    no_repo = False
+                except errors.NoRepositoryPresent:
+                    no_repo = True
+                try:
+                    _rc.Reconfigure.set_repository_trees(
+                        cd, step == "with-trees").apply(force=False)
+                except AttributeError as e:
+                    if not no_repo:
+                        raise
+                    # open finding (reported at the end of the case): a
+                    # lightweight checkout with no repository above it is
+                    # answered with an internal error, not with a refusal
+                    deferred.append((
+                        "C52/set-repository-trees-without-a-repository-"
+                        "raises-AttributeError", [src, step, str(e)[:200]]))
+                    raise _rc.ReconfigurationNotSupported(cd) from None
+            effective += 1
+            labels.append(step)
+        except (_rc.BzrDirError, errors.UncommittedChanges,
+                _branch.UnstackableBranchFormat,
+                errors.UnstackableRepositoryFormat, errors.NotStacked,
+                errors.NoRepositoryPresent, errors.UpgradeRequired,
+                errors.UnstackableLocationError,
+                errors.NotBranchError) as e:
+            # NotBranchError: use-shared without a shared repository above
+            if isinstance(e, errors.NotBranchError):
+                check(step == "use-shared" and not case["shared"],
+                      "C52/exc:NotBranchError-from-reconfigure",
+                      [src, step, str(e)[:200]])
+            if isinstance(e, _rc.UnsyncedBranches):
+                check(not w.parent_in_step,
+                      "C52/in-step-branches-reported-unsynced",
+                      [src, action["steps"], step])
+            post = observe(path, v3=True)
+            if isinstance(e, errors.UpgradeRequired) and \
+                    pre["tree"] is None and post["tree"] is not None and \
+                    all(post[k] == pre[k] for k in ("tip", "tags",
+                                                    "testaments")):
+                # open finding (reported at the end of the case): the branch
+                # format cannot be bound, which apply() notices only after
+                # it has created the working tree
+                deferred.append((
+                    "C52/refused-reconfigure-to-checkout-left-a-new-working-"
+                    "tree-behind", [src, action["steps"], step]))
+            else:
+                check(post == pre, "C52/refused-reconfigure-changed-something",
+                      [src, step, type(e).__name__, diff(pre, post)])
+            labels.append("%s-refused:%s" % (step, type(e).__name__))
+            continue
+        post = observe(path, v3=True)
+        # (turning a tree into a plain branch removes the working files by
+        # design - only allowed without uncommitted changes - and turning
+        # it back re-creates them from the tip)
+        keys = ["tip", "tags", "testaments"]
+        if pre["tree"] is not None and post["tree"] is not None:
+            keys.append("fs")
+        for k in keys:
+            check(post[k] == pre[k], "C52/reconfigure-%s-changed-%s" % (
+                step, k), [src, action["steps"], dd(pre[k], post[k])])
+        if pre["tree"] is not None and post["tree"] is not None:
+            check(post["tree"] == pre["tree"],
+                  "C52/reconfigure-%s-changed-pending-changes" % step,
+                  [src, action["steps"], pre["tree"], post["tree"]])
+        elif pre["tree"] is not None:
+            # destroyed: it had no changes (or the step had been refused)
+            check(pre["tree"]["changes"] == [] and
+                  len(pre["tree"]["parents"]) <= 1,
+                  "C52/reconfigure-%s-destroyed-a-tree-with-changes" % step,
+                  [src, action["steps"], pre["tree"]])
+            fs_at_destroy = pre["fs"]
+        elif post["tree"] is not None and fs_at_destroy is not None:
+            # created again: the content of the tip, as it was before
+            check(post["fs"] == fs_at_destroy,
+                  "C52/tree-created-by-reconfigure-%s-differs-from-the-one-"
+                  "destroyed" % step,
+                  [src, action["steps"], diff(fs_at_destroy, post["fs"])])
+            check(post["tree"]["changes"] == [] and
+                  post["tree"]["parents"] == [post["tip"][1]],
+                  "C52/tree-created-by-reconfigure-%s-reports-changes" % step,
+                  [src, action["steps"], post["tree"]])
+            labels.append("tree-recreated")
+    if deferred:
+        check(False, *deferred[0])
+    if effective < 1:
+        return trivial()
+    return ok("+".join(labels)[:160])
+
+
+# ---------------------------------------------------------------- generators
+
 @st.composite
-def cases(draw):
+def _base(draw):
     # the oldest formats go through the most conversion steps
     src = draw(st.sampled_from(SOURCES + ["knit", "knit", "pack-0.92"]))
     spec = draw(history.history_spec(
@@ -255,23 +472,69 @@ def cases(draw):
     ids = tm.IdSource(prefix="p")
     pending = tm.draw_ops(draw, m, ids, n_min=0, n_max=4, symlinks=True,
                           execs=True, odd_names=False)
-    if draw(st.sampled_from([True, True, False])):
-        action = {"kind": "upgrade",
-                  "target": draw(st.sampled_from([0, 1, 2, 3]))}
-    else:
-        action = {"kind": "reconfigure", "steps": draw(st.lists(
-            st.sampled_from(["branch", "tree", "checkout", "lightweight",
-                             "standalone", "use-shared", "stacked",
-                             "unstacked"]), min_size=1, max_size=4))}
     return {"source": src, "spec": spec, "pending": pending,
             "pending_merge": draw(st.sampled_from([False, True])),
             "conflicts": draw(st.sampled_from([False, True])),
-            "shared": draw(st.sampled_from([False, True])),
-            "action": action}
+            "shared": draw(st.sampled_from([False, True]))}
+
+
+@st.composite
+def upgrade_cases(draw):
+    case = draw(_base())
+    layout = draw(st.sampled_from(["tree", "tree", "tree", "branch",
+                                   "checkout", "shared-top", "shared-top"]))
+    if layout == "shared-top":
+        case["shared"] = True
+    opt = draw(st.sampled_from(["", "", "", "", "", "dry_run", "clean_up",
+                                "clean_up", "default", "same"]))
+    case["action"] = {"kind": "upgrade",
+                      "target": draw(st.sampled_from([0, 1, 2, 3])),
+                      "layout": layout,
+                      "opts": {opt: True} if opt else {}}
+    return case
+
+
+@st.composite
+def reconfigure_cases(draw):
+    case = draw(_base())
+    case["clean"] = draw(st.sampled_from([False, False, True]))
+    steps = draw(st.lists(st.sampled_from(STEPS), min_size=1, max_size=5))
+    if draw(st.sampled_from([True, False, False])):
+        steps = list(draw(st.sampled_from(DIRECTED))) + steps[:3]
+        if steps[0] in ("use-shared", "no-trees") or "use-shared" in steps[:3]:
+            case["shared"] = True
+    case["action"] = {"kind": "reconfigure", "steps": steps[:6],
+                      "parent_behind": draw(st.sampled_from(
+                          [False, False, False, True]))}
+    return case
+
+
+def run(case, env):
+    import json, time  # TEMP-DEBUG
+    fn = "/dev/shm/ap-probe/c52-last-%d.json" % os.getpid()  # TEMP-DEBUG
+    with open(fn, "w") as f:  # TEMP-DEBUG
+        json.dump(case, f)  # TEMP-DEBUG
+    t0 = time.time()  # TEMP-DEBUG
+    try:  # TEMP-DEBUG
+        return run_(case, env)  # TEMP-DEBUG
+    finally:  # TEMP-DEBUG
+        if time.time() - t0 < 15:  # TEMP-DEBUG
+            os.unlink(fn)  # TEMP-DEBUG
+        else:  # TEMP-DEBUG
+            os.rename(fn, fn + ".slow")  # TEMP-DEBUG
+
+
+def run_(case, env):
+    if case["action"]["kind"] == "upgrade":
+        return run_upgrade(case, env)
+    return run_reconfigure(case, env)
 
 
 def kinds(tier):
+    # (one kind, so that the saved regression cases of kind "convert" keep
+    # being replayed)
     return [
-        Kind("convert", run, strategy=cases(),
-             examples={"quick": 200, "thorough": 4000}),
+        Kind("convert", run,
+             strategy=st.one_of(upgrade_cases(), reconfigure_cases()),
+             examples={"quick": 480, "thorough": 8000}),
     ]
